@@ -88,9 +88,34 @@ pub fn release_sleep_of(thread: std::thread::ThreadId) {
     GATE_CV.notify_all();
 }
 
+/// when set, virtual time that passes (a released pause, `advance_monotonic`) also moves the faked wall clock
+static WALL_FOLLOWS: AtomicBool = AtomicBool::new(false);
+static WALL_ELAPSED_NS: AtomicI64 = AtomicI64::new(0);
+
+/// from now on virtual time also advances the wall clock (TCP scripts); returns to T0 first
+pub fn wall_follows_virtual_time(on: bool) {
+    freeze_clock();
+    WALL_ELAPSED_NS.store(0, SeqCst);
+    WALL_FOLLOWS.store(on, SeqCst);
+}
+
+/// virtual wall-clock time elapsed since `wall_follows_virtual_time(true)`
+pub fn wall_elapsed_ms() -> i64 {
+    WALL_ELAPSED_NS.load(SeqCst) / 1_000_000
+}
+
+fn advance_wall(ns: i64) {
+    if WALL_FOLLOWS.load(SeqCst) {
+        let total = WALL_ELAPSED_NS.fetch_add(ns, SeqCst) + ns;
+        FAKE_S.store(T0_SECS + total / 1_000_000_000, SeqCst);
+        FAKE_NS.store(total % 1_000_000_000, SeqCst);
+    }
+}
+
 /// move the monotonic clock seen by std::time::Instant forward
 pub fn advance_monotonic(secs: i64, ns: i64) {
     MONO_OFFSET_NS.fetch_add(secs * 1_000_000_000 + ns, SeqCst);
+    advance_wall(secs * 1_000_000_000 + ns);
 }
 
 /// the real monotonic clock in ns (harness timeouts must not see the virtual offset)
@@ -158,6 +183,7 @@ fn gated_sleep(req: *const libc::timespec) -> bool {
         if RELEASED.lock().map(|r| r.contains(&ticket)).unwrap_or(false) {
             // the pause "happened": virtual time moves on by the requested duration
             MONO_OFFSET_NS.fetch_add(s * 1_000_000_000 + ns, SeqCst);
+            advance_wall(s * 1_000_000_000 + ns);
             return true;
         }
         g = GATE_CV.wait(g).unwrap();
